@@ -31,7 +31,7 @@ SIZES = {
 
 def plan(tier, seed):
     p = SIZES[tier]["parts"]
-    return [{"part": i, "parts": p, "tier": tier, "_name": f"part-{i}"} for i in range(p)]
+    return [{"part": i, "parts": p, "tier": tier, "_name": f"part-{i}"} for i in range(p)] + [{"kind": "contracts", "tier": tier, "_name": "contracts"}]
 
 
 def rand_bic(rng, cc=None, n=None, strict=False):
@@ -44,6 +44,10 @@ def rand_bic(rng, cc=None, n=None, strict=False):
 
 
 def run_shard(shard, out_base):
+    if shard.get("kind") == "contracts":
+        from vf import suite  # noqa: PLC0415
+
+        return suite.run_contract_shard("C04", out_base)
     mon = Mon("C04")
     judge.lib()
     tier, part, parts = shard["tier"], shard["part"], shard["parts"]
